@@ -259,9 +259,28 @@ def rule_pb_each(ctx):
                                     hit = True
                         if hit:
                             copies.add(id(s_))
+            # an operand that the path knows to be a Taylor polynomial (isinstance test taken) owns component i (the tracer's protocol:
+            # out[i] belongs to the i-th operand after the incoming adjoints)
+            vp_ = fi.value_params()
+            kbar = 0
+            while kbar < len(vp_) and vp_[kbar].endswith('bar'):
+                kbar += 1
+            poly_ops = set()
+            for t_ in path:
+                if isinstance(t_, tuple) and len(t_) > 2 and t_[2]:
+                    for c_ in ast.walk(t_[1]):
+                        if isinstance(c_, ast.Call) and norm(c_.func) == 'isinstance' and len(c_.args) == 2 and isinstance(c_.args[0], ast.Name) \
+                                and norm(c_.args[1]).split('.')[-1] in ('UTPM', 'cls') and c_.args[0].id in vp_[kbar:]:
+                            # only when the test as a whole is a conjunction containing it (not under `not` / `or`)
+                            top = t_[1]
+                            conj = top.values if isinstance(top, ast.BoolOp) and isinstance(top.op, ast.And) else [top]
+                            if any(c_ is v_ for v_ in conj):
+                                poly_ops.add(vp_.index(c_.args[0].id) - kbar)
             for i_, nm in sorted(comps.items()):
                 used = [n for s_ in after if not isinstance(s_, ast.Return) and id(s_) not in copies for n in ast.walk(s_)
                         if isinstance(n, ast.Name) and n.id in alias[nm] and isinstance(n.ctx, ast.Load)]
+                if not used and i_ in poly_ops:
+                    used = [nm]
                 if not used:
                     r.ok(construct='%s:%s:placeholder' % (_f(fi), nm))
                     continue
